@@ -576,3 +576,14 @@ def run_programs(out, progs, enforce, label, focus=None, prop='*'):
                                env=env, label=label, timeout=1500)
     settle(out, traces, verdicts, None)
     return traces
+
+
+def run_isolation(out, tier):
+    """C05 part 1: every call leaves the receiver, the arguments and every
+    other live object unchanged; writing into a result never shows in the
+    file it was derived from."""
+    rnd = random.Random(seed() * 7919 + 5)
+    n = 500 if tier == 'quick' else 5000
+    progs = [gen_program(rnd, rnd.choice([2, 3, 4]), isolation=True)
+             for _ in range(n)]
+    run_programs(out, progs, {'iso'}, 'C05-heap', prop='-')
